@@ -79,6 +79,20 @@ def handleX (seed oseed alpha oalpha cse : String) : Out :=
 def handle (line : String) : Out :=
   match tokens line with
   | ["vrf", "x", seed, oseed, alpha, oalpha, cse] => handleX seed oseed alpha oalpha cse
+  | ["vrf", "sok", i, seed, alpha] =>
+    -- a small-order key (all eight points, canonical and non-canonical encodings) with a proof
+    -- crafted to satisfy the verification equation for it: the guard fires before anything else
+    match parseNat? i, parseHex? seed, parseHex? alpha with
+    | some i, some sd, some _ =>
+      if sd.length ≠ 32 ∨ i ≥ 14 then badOp else
+      let r := verifyAndHash GV.Model.VrfSym.sym
+        { GV.Model.VrfSym.Pt.zero with torsion := true }
+        { gamma := GV.Model.VrfSym.Pt.zero, c := GV.Model.VrfSym.C9, s := GV.Model.VrfSym.K2 } 0
+      { model := (match r with
+          | .error .smallOrder => "v=0 err=rejectedkey"
+          | .error _ => "v=0 err=other" | .ok _ => "v=1 accepted-small-order-key"),
+        spec := "v=0*" }
+    | _, _, _ => badOp
   | ["vrf", "pv", seed, alpha] =>
     match parseHex? seed, parseHex? alpha with
     | some sd, some al =>
